@@ -37,7 +37,7 @@ Print Assumptions C12_counted_pods_belong.
 
 (* arbitrary label values are tolerated: no panic for any strings *)
 Theorem C12_tolerates_any_labels :
-  forall i, (0 <=? i_cur i) && (i_cur i <? zlen (i_batches i)) = true -> patch_pod_batch_label i <> Panic.
+  forall i, (0 <=? i_cur i) && (i_cur i <? zlen (i_batches i)) = true -> names_ok i = true -> patch_pod_batch_label i <> Panic.
 Proof. exact patch_total. Qed.
 Print Assumptions C12_tolerates_any_labels.
 
@@ -57,3 +57,11 @@ Theorem C12_budget_filled :
     count (has_bid (Z.of_nat k + 1)) ws = Z.max 0 (nth k (incs i) 0 - count (is_counted i (Z.of_nat k + 1)) (pods_used i)).
 Proof. exact budget_filled. Qed.
 Print Assumptions C12_budget_filled.
+
+(* repeating the pass changes nothing — for StatefulSets (ordered filter) also when the pods are listed in another order:
+   the writes are the same for every permutation of the pod list (pods have distinct ordinals) *)
+Theorem C12_ordered_filter_ignores_listing_order :
+  forall i dp l l', i_filter i = FOrdered dp -> Permutation.Permutation l l' -> NoDup (map key0 l) ->
+  patch_pod_batch_label (with_pods i l) = patch_pod_batch_label (with_pods i l').
+Proof. exact ordered_filter_ignores_listing_order. Qed.
+Print Assumptions C12_ordered_filter_ignores_listing_order.
